@@ -58,6 +58,7 @@ type Obligation struct {
 	Finding  string // known finding id if this is a W-partition
 	ctx      *Ctx
 	ModelVars []string // terms to get-value on sat
+	idxDefined bool    // emit `idx` as a macro instead of an axiomatised symbol
 }
 
 type loopInfo struct {
@@ -96,6 +97,7 @@ type gen struct {
 	closureMap map[string]*ssa.MakeClosure
 	boxed    map[string]Val
 	lastNextKey string
+	nilSeen  map[string][]*ssa.BasicBlock
 	inheritNoPanic bool
 	dryWritten map[*ssa.BasicBlock]map[string]bool
 	resultVals []Val // bound while elaborating ensures
@@ -210,6 +212,9 @@ func (g *gen) count(kind string) int {
 
 // typeInv is the representation invariant of a freshly introduced value of Go type t.
 func (g *gen) typeInv(term string, t types.Type, st State) string {
+	if isTimeTime(t) {
+		return "true"
+	}
 	switch u := t.Underlying().(type) {
 	case *types.Basic:
 		if u.Info()&types.IsInteger != 0 {
